@@ -14,6 +14,9 @@
 
 Added after the second and third seeding rounds:
   store-agreement   every storage field FrozenCopyMap::insert_copy can write is consulted on every path through get_copy
+
+Added after the fifth seeding round:
+  union-members     (C07's union rules) a union resolves to the members it was interned with, in order
 """
 from common import *
 import q
